@@ -102,8 +102,10 @@ class C01(E1Check):
             exp, exp_out = T.ref()
             if T.outcome[:2] != exp_out:
                 served = "index" if (T.cfg["auto_index"] or T.pre_valid) else "scan"
-                out.append(viol("read-transition", f"C01|{served}|{k}|shape={qast.shape(T.op[1])}|filter={'y' if T.op[2] else 'n'}",
-                                observed=T.outcome, expected=exp_out))
+                has_q = len(T.op) > 2 and isinstance(T.op[1], tuple) and T.op[1] and T.op[1][0] in ("cmp", "exists", "regex", "test", "noop", "not", "and", "or")
+                shp = qast.shape(T.op[1]) if has_q else "-"
+                flt = "y" if (has_q and T.op[2]) else "n"
+                out.append(viol("read-transition", f"C01|{served}|{k}|shape={shp}|filter={flt}", observed=T.outcome, expected=exp_out))
         return out
 
     # -- state observers --------------------------------------------------------------------
